@@ -1242,3 +1242,21 @@ func (ex *Exec) checkScratchGhosts(fc *FuncContract, key string) {
 		}
 	}
 }
+
+// siteCandidate: could a site clause be attached to this instruction (call, store, map update)?
+func (ex *Exec) siteCandidate(in ssa.Instruction) bool {
+	switch in.(type) {
+	case ssa.CallInstruction, *ssa.Store, *ssa.MapUpdate:
+		return true
+	}
+	return false
+}
+
+// noteBefore records whether a site clause of the contract uses before(e).
+func (ex *Exec) noteBefore(fc *FuncContract) {
+	for _, cl := range fc.Sites {
+		if strings.Contains(cl.Text, "before(") {
+			ex.usesBefore = true
+		}
+	}
+}
